@@ -183,7 +183,7 @@ for n, lens in ((2, (3, 4, 5)), (3, (4, 5))):
                 small = (L <= 4 and n == 2) or (L == 4 and n == 3 and st == 0)
                 tier = "quick" if small else "thorough"
                 UC("c02-opt-ws-" + tag, "optimal", "opt_witness_and_score::<%s>()" % shape, {"C01": tier, "C02": tier, "C03": tier, "C10": tier}, "bounded", OPT_FNS,
-                   "fuzzy_match_optimal (ASCII): Some under the prefilter's postcondition; W; score == fzf scheme on the indices", unwind=max(h + 3, 7), bound=bound, cost=8, timeout=1500)
+                   "fuzzy_match_optimal (ASCII): Some under the prefilter's postcondition; W; score == fzf scheme on the indices", unwind=max(h + 3, 7), bound=bound, cost=8, timeout=1500, core=(tag in ("h3-n2-s0-k0", "h4-n2-s1-k1")))
                 UC("c04-opt-best-" + tag, "optimal", "opt_at_most_best::<%s>()" % shape, {"C04": tier}, "bounded", OPT_FNS,
                    "fuzzy_match_optimal: score <= maximum of the fzf scheme over all alignments (brute force)", unwind=max(h + 3, 7), bound=bound, cost=8, timeout=1500)
                 UC("c04-opt-rec-" + tag, "optimal", "opt_at_least_recurrence::<%s>()" % shape, {"C04": tier}, "bounded", OPT_FNS,
